@@ -914,13 +914,14 @@ type groupResult struct {
 
 func (g *grouper) run(q *query, rows [][]Value, keyNodes []*bnode, implicitSingle bool) ([]groupResult, error) {
 	type grp struct {
-		keys []Value
-		accs []accumulator
+		keys  []Value
+		accs  []accumulator
+		flags []accFlags
 	}
 	var order []*grp
 	index := map[string]*grp{}
 	newGroup := func(keys []Value) (*grp, error) {
-		gr := &grp{keys: keys, accs: make([]accumulator, len(g.aggs))}
+		gr := &grp{keys: keys, accs: make([]accumulator, len(g.aggs)), flags: make([]accFlags, len(g.aggs))}
 		for i, a := range g.aggs {
 			acc, err := a.agg.newAcc()
 			if err != nil {
@@ -955,7 +956,7 @@ func (g *grouper) run(q *query, rows [][]Value, keyNodes []*bnode, implicitSingl
 			order = append(order, gr)
 		}
 		for i, a := range g.aggs {
-			if err := a.agg.feed(ctx, gr.accs[i]); err != nil {
+			if err := a.agg.feed(ctx, gr.accs[i], &gr.flags[i]); err != nil {
 				return nil, err
 			}
 		}
@@ -971,6 +972,12 @@ func (g *grouper) run(q *query, rows [][]Value, keyNodes []*bnode, implicitSingl
 	for i, gr := range order {
 		res := make([]Value, len(gr.accs))
 		for j, acc := range gr.accs {
+			spec := g.aggs[j].agg
+			if fl := gr.flags[j]; !fl.added && !spec.nullExempt() && (fl.sawNull || spec.nullableArgs()) {
+				// AggregateFunctionNull: no row with all-non-NULL arguments was added
+				res[j] = nil
+				continue
+			}
 			v, err := acc.result()
 			if err != nil {
 				return nil, err
